@@ -67,23 +67,27 @@ theorem classify_normal (s : Str) :
     have : upper (List.take n x) = List.take n (upper x) := by simp [upper, List.map_take]
     rw [this, h]
   have hbase : ∀ x : Str, upper (basename (upper x)) = basename (upper x) := fun x => by unfold basename; exact hdrop _ x
-  unfold Tape.classify
-  dsimp only
-  split
-  · exact ⟨hbase s, rfl, rfl, rfl⟩
-  · rename_i dp _
-    have hname : upper (if (basename (upper (List.take dp s))).length > 8 then List.take 8 (basename (upper (List.take dp s))) else basename (upper (List.take dp s)))
-        = (if (basename (upper (List.take dp s))).length > 8 then List.take 8 (basename (upper (List.take dp s))) else basename (upper (List.take dp s))) := by
-      split
-      · exact htake 8 _ (hbase _)
-      · exact hbase _
+  have hraw : upper (Tape.classifyRaw s).1.name = (Tape.classifyRaw s).1.name ∧ upper (Tape.classifyRaw s).1.ext = (Tape.classifyRaw s).1.ext
+      ∧ (Tape.classifyRaw s).1.kind % 256 = (Tape.classifyRaw s).1.kind ∧ (Tape.classifyRaw s).1.mode % 65536 = (Tape.classifyRaw s).1.mode := by
+    unfold Tape.classifyRaw
+    dsimp only
     split
-    · exact ⟨hname, (by decide : upper (Tape.str "BAS") = Tape.str "BAS"), rfl, rfl⟩
-    · split
-      · exact ⟨hname, huu _, rfl, rfl⟩
+    · exact ⟨hbase s, rfl, rfl, rfl⟩
+    · rename_i dp _
+      have hname : upper (if (basename (upper (List.take dp s))).length > 8 then List.take 8 (basename (upper (List.take dp s))) else basename (upper (List.take dp s)))
+          = (if (basename (upper (List.take dp s))).length > 8 then List.take 8 (basename (upper (List.take dp s))) else basename (upper (List.take dp s))) := by
+        split
+        · exact htake 8 _ (hbase _)
+        · exact hbase _
+      split
+      · exact ⟨hname, (by decide : upper (Tape.str "BAS") = Tape.str "BAS"), rfl, rfl⟩
       · split
         · exact ⟨hname, huu _, rfl, rfl⟩
-        · exact ⟨hname, huu _, rfl, rfl⟩
+        · split
+          · exact ⟨hname, huu _, rfl, rfl⟩
+          · exact ⟨hname, huu _, rfl, rfl⟩
+  obtain ⟨h1, h2, h3, h4⟩ := hraw
+  exact ⟨htake 8 _ h1, htake 3 _ h2, h3, h4⟩
 
 /-- the files of a created tape, as a reader sees them -/
 def createdFiles (w : Tape.World) (srcs : List Str) : List C08.TFile :=
